@@ -110,6 +110,7 @@ static std::vector<uint64_t> sample_offsets(Inst& in, mon::Rng& rng, int nrand)
   std::vector<uint64_t> o = { 0, 1, 2, 3, 4, 7, 8, 15, 16, 255, 256, 4095, 4096, 4097, in.size / 2 - 1, in.size / 2, in.size / 2 + 1, in.size - 4097, in.size - 4096,
                               in.size - 9, in.size - 8, in.size - 5, in.size - 4, in.size - 3, in.size - 2, in.size - 1 };
   for (uint64_t b = 1; b < in.size; b <<= 1) { o.push_back(b - 1); o.push_back(b); o.push_back(b + 1); }
+  if (in.size > (size_t(1) << 31)) for (uint64_t d = 0; d < 16; d++) { o.push_back((uint64_t(1) << 31) + d * 4093); o.push_back(in.size - 1 - d * 65537); o.push_back(0x80000000ull - 1 - d); o.push_back(0xFFFF0000ull + d); }
   for (int i = 0; i < nrand; i++) o.push_back(rng.below(in.size));
   return o;
 }
@@ -123,13 +124,16 @@ int main(int argc, char** argv)
   mon::require("several-instances-live");
   mon::Rng rng(mon::seed() * 7 + 4 + mon::slice());
   fill_library(lib1, 1);
+  // "big": 4 GiB regions (first MiB and last page committed): offsets >= 2^31 and near 2^32 exercise the full width of the representation
+  bool big = argc > 1 && !strcmp(argv[1], "big");
+  if (big) { S::region_size = size_t(1) << 32; S::commit_size = size_t(1) << 20; mon::hit("four-gib-region-runs"); }
 
   int rounds = mon::tier(24, 400);
   uint64_t registry_orders = 0;
   for (int round = 0; round < rounds; round++) {
     // churn the set of live instances: destroy some (any order), create some
     while (!live.empty() && rng.below(3) == 0) live.erase(live.begin() + rng.below(live.size()));
-    size_t target = 1 + rng.below(8);
+    size_t target = 1 + rng.below(big ? 4 : 8);
     while (live.size() < target) live.insert(live.begin() + rng.below(live.size() + 1), std::make_unique<Inst>(&lib1));
     while (live.size() > target) live.erase(live.begin() + rng.below(live.size()));
     if (live.size() > 1) mon::hit("several-instances-live");
@@ -149,7 +153,7 @@ int main(int argc, char** argv)
     }
     // exhaustive: every offset of the region through the cell store/load
     // positions of one PRNG-chosen live instance per round
-    if (round < mon::tier(2, 8)) {
+    if (!big && round < mon::tier(2, 8)) {
       size_t w = rng.below(live.size());
       Inst& in = *live[w];
       sbx& sb = *in.sb;
